@@ -74,7 +74,7 @@ def main(argv=None):
 
     if args.cmd == "check":
         code, _ = run_property(args.prop.upper(), args.tier, args.repo, write_evidence=not args.no_evidence)
-        if code == 0 and args.tier == "thorough":
+        if code == 0 and args.tier == "thorough" and not os.environ.get("PYHFSA_IN_AUDIT"):
             from . import audit
             audit.run_audit([args.prop.upper()], args.repo, jobs=16, into_evidence=not args.no_evidence)
         return code
